@@ -17,6 +17,7 @@ from .. import gen
 from ..ref import midi1
 
 ID = 'C04'
+ANCHORS = ['mido.tokenizer', 'mido.parser']
 LEVEL = 'exploration'
 RULE = ('every string up to length L over a 15-symbol alphabet with one representative '
         'per byte class (L=5 quick: 813 616 strings; L=6 thorough: 12.2 M; exhaustive to '
